@@ -4,7 +4,7 @@ import numpy as np
 import torch
 
 from . import project, algrun
-from .g3run import Capture, rand_tt, raw_tt, dense_op, rel_err, mk_problem, check_tt, check_operands, TOL, U64, feasible_ranks
+from .g3run import opt_kwargs, quiet, Capture, rand_tt, raw_tt, dense_op, rel_err, mk_problem, check_tt, check_operands, TOL, U64, feasible_ranks
 
 
 # ------------------------------------------------------------------ systems named in the specification
@@ -116,9 +116,9 @@ def run_solve(st, opts):
         stats["calls"] += 1
         cap = Capture("amen", active=not use_cpp)
         try:
-            with cap:
+            with cap, quiet():
                 x = tt.solvers.amen_solve(A, b, x0=g, eps=eps, max_full=cfg["maxfull"], local_solver=cfg["solver"], preconditioner=prec,
-                                          use_cpp=use_cpp, verbose=False)
+                                          use_cpp=use_cpp, **dict({"verbose": False}, **opt_kwargs("amen_solve", cfg.get("opt"))))
         except Exception as ex:  # noqa
             problems.append(mk_problem("C12", "exception", cfg, "call %d raised %s: %s" % (it + 1, type(ex).__name__, str(ex)[:200]), st, {"exc": type(ex).__name__}))
             check_operands(cfg, st, tt, objs, snap, names, problems)
@@ -180,13 +180,14 @@ def run_divide(st, opts):
     objs = [x, y] + ([g] if g is not None and g is not x else [])
     names = ["x", "y"] + (["starting_tensor"] if g is not None and g is not x else [])
     c = 2.5
+    okw = opt_kwargs(op, cfg.get("opt"))
 
     def call():
         if op == "div": return x / y, xd, 1e-12
         if op == "rdiv": return c / y, torch.full_like(yd, c), 1e-12
         if op == "elementwise_divide":
-            return tt.elementwise_divide(x, y, eps=eps, starting_tensor=g), xd, eps
-        return tt.elementwise_divide(x, y, eps=eps, starting_tensor=g, preconditioner='c'), xd, eps
+            return tt.elementwise_divide(x, y, eps=eps, starting_tensor=g, **okw), xd, eps
+        return tt.elementwise_divide(x, y, eps=eps, starting_tensor=g, preconditioner='c', **okw), xd, eps
     ncalls = 2 if cfg["guess"] == "reused" else 1
     dtraces = []
     for it in range(ncalls):
@@ -194,7 +195,7 @@ def run_divide(st, opts):
         stats["calls"] += 1
         cap = Capture("amen")
         try:
-            with cap:
+            with cap, quiet():
                 q, num, e_solver = call()
         except Exception as ex:  # noqa
             problems.append(mk_problem("C13", "exception", cfg, "call %d raised %s: %s" % (it + 1, type(ex).__name__, str(ex)[:200]), st, {"exc": type(ex).__name__}))
